@@ -286,12 +286,16 @@ def _chunk(args):
               elif [int(x) for x in simg[w, py, px]] != sg:
                 key, msg = "get_segmentation image differs from the buffer cell", f"image {simg[w, py, px]} buffer {sg}"
             if key:
-              g0 = sorted(accept)[0]
+              hf = [g for g in sorted(accept) if g >= 0 and int(mjm.geom_type[g]) == 1]
+              g0 = hf[0] if hf else sorted(accept)[0]
               kk = {"what": key, "proj": cm["proj"], "geomtype": int(mjm.geom_type[g0]) if g0 >= 0 else -1}
-              if g0 >= 0 and int(mjm.geom_type[g0]) == 1:
-                loc = dd.geom_xmat[g0].reshape(3, 3).T @ (o + best * v - dd.geom_xpos[g0])
-                hs = mjm.hfield_size[mjm.geom_dataid[g0]]
-                kk["part"] = "base_or_side" if (loc[2] <= 1e-4 or abs(loc[0]) >= hs[0] - 1e-4 or abs(loc[1]) >= hs[1] - 1e-4) else "top"
+              if hf:
+                kk["part"] = "top"
+                for g0 in hf:
+                  loc = dd.geom_xmat[g0].reshape(3, 3).T @ (o + best * v - dd.geom_xpos[g0])
+                  hs = mjm.hfield_size[mjm.geom_dataid[g0]]
+                  if loc[2] <= 1e-4 or abs(loc[0]) >= hs[0] - 1e-4 or abs(loc[1]) >= hs[1] - 1e-4:
+                    kk["part"] = "base_or_side"
               bads.setdefault(core.jhash(kk), (kk, f"camera {ci} (render index {ri}, {cm['proj']}, {cm['home']}) world {w} pixel ({px},{py}): {msg}"))
     for kk, msg in bads.values():
       out.append((kk, msg, where))
@@ -309,7 +313,7 @@ def run(ctx: core.Ctx):
               "(MuJoCo's frustum, cross-checked with mjv_updateScene) over the rendered geoms by per-geom MuJoCo intersections; silhouette pixels "
               "whose answer changes under a 3e-4 direction change are not compared")
   ctx.tlc("RenderPix", "MC_RenderPix.cfg", timeout=1800)
-  n = 42 if ctx.quick else 800
+  n = 42 if ctx.quick else 2500
   r = ctx.tlc("Gen_RenderPix", "Gen_RenderPix.cfg", gen=gen(n), workers=1, simulate="num=1", depth=n + 1, seed=ctx.seed % (1 << 30), timeout=900)
   cfgs, seen = [], set()
   for c in r.emit("cfg"):
